@@ -32,6 +32,7 @@ structure HState where
   parkedResult : Option (Worker × Bool) := none   -- a run that already executed and is parked in front of releasing the lock
   snapVals : List Nat := []                 -- the item values the implementation's snapshot lists (kept while its match list is unchanged)
   snapMatches : String := ""
+  clearedAt : Nat := 0                      -- the stream created by the last `restart(true)`
 
 def kindOfNat (n : Nat) : AtomKind :=
   match n with | 0 => .fuzzy | 1 => .substring | 2 => .prefix | 3 => .postfix | _ => .exact
@@ -288,11 +289,14 @@ def hEvent (e : HEnv) (st : HState) (ev : String) : HState := Id.run do
     let before := s.lastSnap
     s := { s with n := s.n.restart clear, notifyDebt := false }
     s := setStream s s.n.cur []
+    if clear then s := { s with clearedAt := s.n.cur }
     expectNf := some 0
     match snap with
     | some sn =>
       let core := "/".intercalate ((sn.splitOn "/").take 3)
       if clear && !(core.startsWith "0/" && core.endsWith "/-") then issues := issues ++ [s!"ORACLE C12 restart(true) left a non-empty snapshot {core}"]
+      if clear && (sn.splitOn "/").getD 5 "-" ≠ "-" then
+        issues := issues ++ [s!"ORACLE C12 restart(true) left a snapshot through which items can still be read by index: {(sn.splitOn "/").getD 5 "-"}"]
       if !clear && before ≠ "" && core ≠ before then issues := issues ++ [s!"ORACLE C12 restart(false) changed the snapshot from {before} to {core}"]
     | none => pure ()
   | "release" =>
@@ -309,7 +313,15 @@ def hEvent (e : HEnv) (st : HState) (ev : String) : HState := Id.run do
   -- the values the snapshot lists now (it only changes in tick / restart, whose events carry a dump)
   if let some sn := snap then
     match sn.splitOn "/" with
-    | [_, _, ms, _, vals] =>
+    | [_, _, ms, _, vals, probe] =>
+      -- C12: whatever the snapshot's item handle reaches belongs to one stream, and not to one abandoned by a clearing restart
+      let pvals : List Nat := if probe = "-" then [] else (probe.splitOn ",").filterMap fun x => ((x.splitOn ".").getD 1 "").toNat?
+      let streamOf : Nat → Option Nat := fun v => (List.range s.streams.length).find? fun sid => (getStream s sid).contains (some v)
+      let sids := (pvals.filterMap streamOf).eraseDups
+      if sids.length > 1 then issues := issues ++ [s!"ORACLE C12 one snapshot reaches items of the streams {sids} (after {cmd})"]
+      for sid in sids do
+        if sid < s.clearedAt then
+          issues := issues ++ [s!"ORACLE C12 the snapshot still reaches items of stream {sid}, abandoned by a clearing restart (current stream since then: {s.clearedAt}) (after {cmd})"]
       let parsed : List (Option Nat) := if vals = "-" then [] else (vals.splitOn ",").map (·.toNat?)
       -- an unchanged match list still lists the same items, readable or not
       let vs : List Nat := if ms = s.snapMatches && parsed.length = s.snapVals.length then (parsed.zip s.snapVals).map (fun (a, b) => a.getD b)
